@@ -2,6 +2,8 @@
 
 from __future__ import annotations
 
+from collections import OrderedDict, defaultdict, deque
+
 import optree
 
 from mc import e1, gen
@@ -111,30 +113,46 @@ def check(ctx, tree, leaves0, dsl, cfg):  # noqa: C901, PLR0912, PLR0915
             elif with_ns[0] != 'ok' or with_ns[1] != spec or with_ns[1].paths() != spec.paths() or with_ns[1].accessors() != spec.accessors():
                 ctx.violation('rebuild-from_collection', keyf('rebuild-from_collection'), case,
                               f'{with_ns!r} vs {spec!r} (collection {coll!r})')
-            ctor = None
+            # every constructor in every argument form it documents (sequence / iterator / deque of children; mapping of any
+            # dict class, pairs, pair iterator, keyword arguments) -- all order preserving, so each must give `spec` back
             k = d.kind
+            ctors = []
+            opt = {'none_is_leaf': nil, 'namespace': ns}
+            seq_forms = (('list', list), ('tuple', tuple), ('iterator', iter), ('deque', deque),
+                         ('generator', lambda xs: (x for x in xs)))
             if k == 'tuple':
-                ctor = lambda: optree.treespec_tuple(children, none_is_leaf=nil, namespace=ns)  # noqa: E731
+                ctors = [(f, lambda mk=mk: optree.treespec_tuple(mk(children), **opt)) for f, mk in seq_forms]
             elif k == 'list':
-                ctor = lambda: optree.treespec_list(iter(children), none_is_leaf=nil, namespace=ns)  # noqa: E731
-            elif k == 'dict':
-                ctor = lambda: optree.treespec_dict(coll, none_is_leaf=nil, namespace=ns)  # noqa: E731
-            elif k == 'odict':
-                ctor = lambda: optree.treespec_ordereddict(coll, none_is_leaf=nil, namespace=ns)  # noqa: E731
-            elif k == 'ddict':
-                ctor = lambda: optree.treespec_defaultdict(coll.default_factory, coll, none_is_leaf=nil, namespace=ns)  # noqa: E731
+                ctors = [(f, lambda mk=mk: optree.treespec_list(mk(children), **opt)) for f, mk in seq_forms]
             elif k == 'deque':
-                ctor = lambda: optree.treespec_deque(children, maxlen=d.meta, none_is_leaf=nil, namespace=ns)  # noqa: E731
+                ctors = [(f, lambda mk=mk: optree.treespec_deque(mk(children), maxlen=d.meta, **opt)) for f, mk in seq_forms]
+            elif k in ('dict', 'odict', 'ddict'):
+                items = list(coll.items())
+                map_forms = [('same-class', lambda: coll), ('dict', lambda: dict(items)), ('OrderedDict', lambda: OrderedDict(items)),
+                             ('defaultdict', lambda: defaultdict(list, items)), ('pairs', lambda: list(items)),
+                             ('pair-iterator', lambda: iter(items)), ('zip', lambda: zip([a for a, _ in items], [b for _, b in items]))]
+                if k == 'dict':
+                    ctors = [(f, lambda mk=mk: optree.treespec_dict(mk(), **opt)) for f, mk in map_forms]
+                    if items and all(type(a) is str and a.isidentifier() and a not in ('none_is_leaf', 'namespace') for a, _ in items):
+                        ctors.append(('kwargs', lambda: optree.treespec_dict(**dict(items), **opt)))
+                        ctors.append(('mapping+kwargs', lambda: optree.treespec_dict(OrderedDict(items[:1]), **dict(items[1:]), **opt)))
+                elif k == 'odict':
+                    ctors = [(f, lambda mk=mk: optree.treespec_ordereddict(mk(), **opt)) for f, mk in map_forms]
+                else:
+                    ctors = [(f, lambda mk=mk: optree.treespec_defaultdict(coll.default_factory, mk(), **opt)) for f, mk in map_forms]
             elif k == 'namedtuple':
-                ctor = lambda: optree.treespec_namedtuple(coll, none_is_leaf=nil, namespace=ns)  # noqa: E731
+                ctors = [('instance', lambda: optree.treespec_namedtuple(coll, **opt))]
             elif k == 'structseq':
-                ctor = lambda: optree.treespec_structseq(coll, none_is_leaf=nil, namespace=ns)  # noqa: E731
+                ctors = [('instance', lambda: optree.treespec_structseq(coll, **opt))]
             elif k == 'none':
-                ctor = lambda: optree.treespec_none(none_is_leaf=nil, namespace=ns)  # noqa: E731
-            if ctor is not None:
+                ctors = [('none', lambda: optree.treespec_none(**opt))]
+            for form, ctor in ctors:
+                ctx.extra['constructor-forms'] += 1
                 r = outcome_of(ctor)
-                if r[0] != 'ok' or r[1] != spec or r[1].paths() != spec.paths() or r[1].num_nodes != spec.num_nodes:
-                    ctx.violation(f'rebuild-ctor:{k}', keyf('rebuild-ctor'), case, f'{r!r} vs {spec!r}')
+                if (r[0] != 'ok' or r[1] != spec or hash(r[1]) != hash(spec) or r[1].paths() != spec.paths()
+                        or r[1].num_nodes != spec.num_nodes or r[1].type is not spec.type or r[1].kind != spec.kind):
+                    ctx.violation(f'rebuild-ctor:{k}', keyf('rebuild-ctor'), {**case, 'form': form},
+                                  f'argument form {form}: {r!r} vs {spec!r}')
     if d is STAR:
         lf = optree.treespec_leaf(none_is_leaf=nil, namespace=ns)
         if lf != spec or lf.paths() != spec.paths():
